@@ -63,4 +63,31 @@ Lemma siter_backpressure c st prev now pkt :
   siter c st prev (SLTun now pkt) = siter c st prev (SLTimeout now).
 Proof. intros H. unfold siter. cbn [slnow]. rewrite H. reflexivity. Qed.
 
+(* and the other way round: a live raw-mode session, or a live DNS-mode session with an empty ring, keeps the tun device
+   selected -- whatever is left in a raw-mode session's ring from before it switched to raw mode *)
+Lemma taker_keeps_tun_selected (st0 : sstate) (prev : N) (i : nat) :
+  (i < length st0)%nat ->
+  u_active (getu st0 i) = true -> u_disabled (getu st0 i) = false -> live prev (getu st0 i) = true ->
+  (u_conn (getu st0 i) = CONN_RAW \/ (u_conn (getu st0 i) = CONN_DNS /\ u_queue_filled (getu st0 i) = O)) ->
+  all_waiting st0 prev = false.
+Proof.
+  intros Hi Ha Hd Hl Hc. unfold all_waiting. apply Bool.negb_false_iff. apply existsb_exists.
+  exists (getu st0 i). split; [unfold getu; apply nth_In; exact Hi|].
+  unfold can_take. rewrite Ha, Hd, Hl. cbn [negb andb].
+  destruct Hc as [-> | [-> Hq]]; [reflexivity|]. rewrite Hq. reflexivity.
+Qed.
+
+Lemma siter_reads_tun c st prev now pkt i :
+  let st0 := sweep_clear st prev in
+  (i < length st0)%nat ->
+  u_active (getu st0 i) = true -> u_disabled (getu st0 i) = false -> live prev (getu st0 i) = true ->
+  (u_conn (getu st0 i) = CONN_RAW \/ (u_conn (getu st0 i) = CONN_DNS /\ u_queue_filled (getu st0 i) = O)) ->
+  siter c st prev (SLTun now pkt) =
+  (let '(st1, o1) := Server.tunnel_tun zc st0 now pkt in
+   let '(st2, o2) := sweep_send (length st1) 0 st1 now [] in (st2, o1 ++ o2)).
+Proof.
+  intros st0 Hi Ha Hd Hl Hc. unfold siter. cbn [slnow]. fold st0.
+  rewrite (taker_keeps_tun_selected st0 prev i Hi Ha Hd Hl Hc). reflexivity.
+Qed.
+
 End WithOracles.
